@@ -2032,7 +2032,8 @@ cmd_ical(EV_P_ int ofd, ical_parser_t cmd[static 1U], ncred_t cred)
 			if (UNLIKELY(ins.t == NULL)) {
 				continue;
 			}
-			/* and otherwise inject him */
+			/* and otherwise inject him, the reply is about his oid */
+			ins.o = ins.t->oid;
 			if (UNLIKELY(_inject_task1(EV_A_ ins.t, cred.u) < 0)) {
 				/* reply with REQUEST-STATUS:x */
 				ins.v = INSVERB_FAIL;
